@@ -57,7 +57,7 @@ def run_go(prop, tier, repo=REPO, config="default"):
 # which engines serve which property
 GO_PROPS = {"C01", "C02", "C03", "C04", "C05", "C06", "C07", "C08", "C09", "C10", "C11", "C12", "C13", "C14",
             "C15", "C16", "C17", "C18", "C19", "C20"}
-C_PROPS = {"C01", "C02", "C03", "C04", "C05", "C06", "C07", "C09", "C12", "C17", "C19", "C20"}
+C_PROPS = {"C01", "C02", "C03", "C04", "C05", "C06", "C07", "C08", "C09", "C12", "C17", "C19", "C20"}
 
 
 def load_known():
